@@ -28,3 +28,20 @@ m("ix_invalidate_keeps_valid", IX, "        # Set 'valid' to False.\n        sel
 # harmless
 m("h_ix_rename_local", IX, "        start_idx = len(self._timestamps)\n\n        for idx, point in enumerate(points):\n            new_idx = start_idx + idx", "        start_idx = len(self._timestamps)\n\n        for idx, point in enumerate(points):\n            new_idx = idx + start_idx", [], harmless=True)
 m("h_ix_reset_order", IX, "        self._num_items = 0\n        self._tags = {}\n        self._fields = {}\n        self._measurements = {}\n        self._timestamps = []\n        self._storage_pos", "        self._tags = {}\n        self._num_items = 0\n        self._fields = {}\n        self._measurements = {}\n        self._timestamps = []\n        self._storage_pos", [], harmless=True)
+
+DB = "tinyflux/database.py"
+m("db_count_scan_drops_filter", DB, "                and not self._storage._deserialize_measurement(item)\n                == measurement\n            ):\n                continue\n\n            if query(self._storage._deserialize_storage_item(item)):\n                count += 1", "                and False\n            ):\n                continue\n\n            if query(self._storage._deserialize_storage_item(item)):\n                count += 1", ["C01"])
+m("db_contains_ge", DB, "            return len(index_rst._items) > 0", "            return len(index_rst._items) >= 0", ["C01"])
+m("db_exact_always", DB, '    return bool(getattr(query, "_hash", None))', "    return True", ["C01"])
+m("db_search_sort_inverted", DB, "        if sorted:\n            found_points.sort(key=lambda x: (x.time is None, x.time))", "        if not sorted:\n            found_points.sort(key=lambda x: (x.time is None, x.time))", ["C01"])
+m("db_search_break_early", DB, "                # If we are out of items, break.\n                if j == len(index_rst._items):\n                    break\n\n        # Search without index.", "                # If we are out of items, break.\n                if j == len(index_rst._items) - 1:\n                    break\n\n        # Search without index.", ["C01"])
+m("db_get_candidate_inverted", DB, "                # Not a candidate.\n                if i not in index_rst._items:\n                    continue", "                # Not a candidate.\n                if i in index_rst._items:\n                    continue", ["C01"])
+m("db_get_scan_no_filter", DB, "                    and self._storage._deserialize_measurement(item)\n                    != measurement\n                ):\n                    continue\n\n                # Evaluate query against storage item.\n                _point = self._storage._deserialize_storage_item(item)\n                if query(_point):\n                    got_point = _point", "                    and self._storage._deserialize_measurement(item)\n                    == measurement\n                ):\n                    continue\n\n                # Evaluate query against storage item.\n                _point = self._storage._deserialize_storage_item(item)\n                if query(_point):\n                    got_point = _point", ["C01"])
+m("db_remove_map_off_by_one", DB, "                        updated_items[i] = new_position", "                        updated_items[i] = new_position + 1", ["C02"])
+m("db_remove_no_swap", DB, "        # Items were updated. Swap storages and clean up.\n        self._storage._swap_temp_with_primary()\n\n        # The index was used", "        # The index was used", ["C02"])
+m("db_remove_scan_keeps_match", DB, "                if query(self._storage._deserialize_storage_item(item)):\n                    removed_items.add(i)\n\n                # Not a match, keep.\n                else:", "                if query(self._storage._deserialize_storage_item(item)):\n                    removed_items.add(i)\n                    self._storage.append([item], temporary=True)\n\n                # Not a match, keep.\n                else:", ["C02"])
+m("db_remove_counts_kept", DB, "        # Return number of updated items.\n        return len(removed_items)", "        # Return number of updated items.\n        return keep_count", ["C02"])
+m("db_remove_index_not_invalidated", DB, "            self._index.update(updated_items)\n        else:\n            self._index.invalidate()", "            self._index.update(updated_items)\n        else:\n            pass", ["C02"])
+m("db_reset_keeps_index", DB, "        if self._auto_index:\n            self._index._reset()\n        else:\n            self._index.invalidate()", "        if self._auto_index:\n            pass\n        else:\n            self._index.invalidate()", ["C02"])
+m("db_drop_wrong_filter", DB, "        return self._remove_helper(MeasurementQuery() == name, name)", "        return self._remove_helper(MeasurementQuery() != name, name)", ["C02"])
+m("h_db_count_rename", DB, "        # Return value.\n        count = 0\n\n        # Search without help of the index.\n        for item in self._storage:\n            # Filter by measurement.\n            if (\n                measurement\n                and not self._storage._deserialize_measurement(item)\n                == measurement\n            ):\n                continue", "        # Return value.\n        count = 0\n\n        # Search without help of the index.\n        for item in self._storage:\n            # Filter by measurement.\n            if (\n                measurement\n                and self._storage._deserialize_measurement(item)\n                != measurement\n            ):\n                continue", [], harmless=True)
